@@ -1135,6 +1135,49 @@ pub fn run_c34(_p: &str, _tier: Tier, run_seed: u64, ov: &Value) -> RunOut {
                     out.violations.push(viol("bad-tickets-refused", "good-ticket-refused", vec![], format!("a well-formed v1 ticket was refused: {:?} {}", s.code(), s.message()), json!({})));
                 }
             }
+            // a well-formed ticket may carry a statement that no longer plans (hand-made, or
+            // stale): DoGet is then the first to see the failure and must report the class
+            // /sql reports for the same statement
+            if load[0] {
+                for sql in [format!("SELECT no_such_column FROM {}", big.name), "SELECT * FROM no_such_table".to_string(), "SELEC 1".to_string()] {
+                    let http = post_sql(&node.address, "distributed=0&format=arrow", &sql).await;
+                    let ticket = json!({"v": 1, "sql": sql, "mode": "off"}).to_string().into_bytes();
+                    let fl = flight_get(&svc, Ticket::new(ticket)).await;
+                    out.bump("n.stale_ticket_statements");
+                    match (http, fl) {
+                        (Ok(h), Err(s)) if h.status != 200 => {
+                            if http_class(h.status) != grpc_class(s.code()) {
+                                out.violations.push(viol("flight-equals-http", "error-class-differs", vec!["ticket:well-formed-unplannable-statement".into()], format!("{sql}: HTTP {} but DoGet on a well-formed ticket answered {:?}", h.status, s.code()), json!({"message": s.message()})));
+                            } else {
+                                out.bump("probe.stale_ticket_error_class_agrees");
+                            }
+                        }
+                        (Ok(h), Ok(o)) if h.status != 200 => out.violations.push(viol("flight-equals-http", "flight-ok-http-error", vec!["ticket:well-formed-unplannable-statement".into()], format!("{sql}: HTTP {} but DoGet returned {} rows", h.status, o.rows.len()), json!({}))),
+                        _ => {}
+                    }
+                }
+            }
+            // a statement the distributed paths refuse under force mode plans locally, so
+            // GetFlightInfo mints a ticket and the refusal surfaces in DoGet only
+            if load[0] {
+                for sql in ["SELECT 1", "SELECT 1 AS x, 'a' AS y"] {
+                    let http = post_sql(&node.address, "distributed=1&format=arrow", sql).await;
+                    let fl = flight_query(&svc, sql, "force").await;
+                    out.bump("n.forced_constant_statements");
+                    match (http, fl) {
+                        (Ok(h), Err(s)) if h.status != 200 => {
+                            if http_class(h.status) != grpc_class(s.code()) {
+                                out.violations.push(viol("flight-equals-http", "error-class-differs", vec!["mode:force".into(), "statement:no-table".into()], format!("{sql}: HTTP {} but Flight {:?}", h.status, s.code()), json!({"message": s.message()})));
+                            } else {
+                                out.bump(&format!("probe.forced_constant_{}", http_class(h.status)));
+                            }
+                        }
+                        (Ok(h), Ok(o)) if h.status != 200 => out.violations.push(viol("flight-equals-http", "flight-ok-http-error", vec!["mode:force".into(), "statement:no-table".into()], format!("{sql}: HTTP {} but Flight returned {} rows", h.status, o.rows.len()), json!({}))),
+                        (Ok(h), Err(s)) => out.violations.push(viol("flight-equals-http", "http-ok-flight-error", vec!["mode:force".into(), "statement:no-table".into()], format!("{sql}: HTTP {} but Flight {:?}: {}", h.status, s.code(), s.message()), json!({}))),
+                        _ => {}
+                    }
+                }
+            }
             query_engine::verif::net::set_connector(None);
             sample = Some(json!({"world": sc.world.describe(), "log": log.iter().skip(1).take(5).collect::<Vec<_>>()}));
             let ms = t0.elapsed().as_millis() as u64;
